@@ -295,4 +295,192 @@ theorem sim_postb {cfg : Cfg} {d d' : RState} {m : Mon} {o : Obs} (hs : Sim cfg 
     · simp only [modelOp, hsid, hst, Bool.false_eq_true, if_false, step_postHead_err hst hl]
     · exact chkAnswer_refused hs _ _ (by simp) hname (Or.inl ⟨hj, hnone, rfl⟩)
 
+
+/-! ### `body`: a piece of the body arrives -/
+
+theorem keepsId_bodyF (ok : Bool) (k : Kind) : KeepsId (tryF (bodyF ok k)) :=
+  keepsId_tryF fun _ _ h => (bodyF_fields h).2.1
+
+theorem sim_body {cfg : Cfg} {d d' : RState} {m : Mon} {o : Obs} (hs : Sim cfg d m) (n : Nat) (fin : Bool)
+    (hop : replayOp d (.body n fin) = some (d', o)) :
+    (monStep cfg m (.body n fin) o).viol = none ∧ Sim cfg d' (monStep cfg m (.body n fin) o).mon := by
+  have hst := hs.stateful_st
+  have hreq : (Op.body n fin).req = none := rfl
+  have hnid := inv_nodupIds hs.inv
+  have hba : ∀ st, bookAnswer cfg (effFaults cfg m) m.now (tagOf m (.body n fin)) m.tbl m.pend (.body n fin) st = (m.tbl, m.pend) := by
+    intro st; simp [bookAnswer, hs.stateful]
+  have hpw := hs.pok.weak
+  -- nothing happens: no such POST in progress, or a piece that is not the last one
+  have quiet : ∀ (status : St),
+      modelOp d (.body n fin) = some { st := d.st, status := status, pend := d.pend, nslow := d.nslow, nasync := d.nasync, released := d.released } →
+      (monStep cfg m (.body n fin) o).viol = none ∧ Sim cfg d' (monStep cfg m (.body n fin) o).mon := by
+    intro status hmo
+    exact sim_quiet_op hs hmo rfl rfl rfl rfl rfl rfl (by simp [countersAfter, hs.nslow, hs.nasync]) (by rw [hreq]; rfl)
+      (hba _) rfl rfl rfl (by simp [chkNoId, hreq]) (Nat.le_refl _) (Nat.le_refl _) hop
+  cases hfind : d.pend.find? (fun p => p.tag == Tag.u n) with
+  | none => apply quiet .noop; simp only [modelOp, hst, Bool.false_eq_true, if_false, hfind]
+  | some p =>
+    obtain ⟨hp, hpred⟩ := mem_of_find? hfind
+    have hptag : p.tag = .u n := by simpa using hpred
+    cases fin with
+    | false => apply quiet .ok; simp only [modelOp, hst, Bool.false_eq_true, if_false, hfind, Bool.not_false, if_true]
+    | true =>
+      have hshape := hs.pok.shape p hp
+      cases hpk : p.kind with
+      | slow a b => apply quiet .noop; simp only [modelOp, hst, Bool.false_eq_true, if_false, hfind, Bool.not_true, hpk]
+      | run a b => apply quiet .noop; simp only [modelOp, hst, Bool.false_eq_true, if_false, hfind, Bool.not_true, hpk]
+      | del a b => apply quiet .noop; simp only [modelOp, hst, Bool.false_eq_true, if_false, hfind, Bool.not_true, hpk]
+      | cls a => apply quiet .noop; simp only [modelOp, hst, Bool.false_eq_true, if_false, hfind, Bool.not_true, hpk]
+      | upl i n' usr =>
+        have hi : i < d.st.next := hs.pok.minted p hp i (by simp [sidOf, hpk])
+        obtain ⟨e, hfe⟩ := findSess_of_lt hs.inv hi
+        have hmem := (findSess_some hfe).1
+        have hid := (findSess_some hfe).2
+        have hk := hs.eok e hmem
+        have hg := hs.good hmem
+        have hrel := hs.rel e hmem
+        rw [hid] at hk
+        cases hb : bodyF (d.st.accepts .call) .call e with
+        | none =>
+          -- (never: the body of a POST in progress can always arrive)
+          apply quiet .noop
+          simp only [modelOp, hst, Bool.false_eq_true, if_false, hfind, Bool.not_true, hpk, step_postBody_none hst hfe hb]
+        | some e1 =>
+          have hu : e.upl ≠ 0 := (bodyF_fields hb).2.2.2.2.2.2.2.2.1
+          have hstep := step_postBody_ok hst hnid hfe hb
+          have htouniq : ∀ e' ∈ d.st.tbl, e'.id = i → e' = e := fun e' he' hid' => entry_unique hs.inv he' hmem (by rw [hid', hid])
+          have hrc : e.removed = true → e.closing = true := fun h => (hg.removed h).2.2.2
+          have hpne : e.posts ≠ 0 := by rw [hk.posts]; omega
+          -- the pending request leaves the list
+          have hns1 := nsOf_filter_tag hs.pok.tags hp
+          have hnr1 := nrOf_filter_tag hs.pok.tags hp
+          have hcntP : ∀ j, nsOf (d.pend.filter (fun q => q.tag != p.tag)) j = nsOf d.pend j ∧
+              nrOf (d.pend.filter (fun q => q.tag != p.tag)) j = nrOf d.pend j := by
+            intro j
+            have h1 := hns1 j
+            have h2 := hnr1 j
+            have s1 : isSlowOf j p = false := by simp [isSlowOf, hpk]
+            have s2 : isRunOf j p = false := by simp [isRunOf, hpk]
+            rw [s1] at h1; rw [s2] at h2
+            simp at h1 h2
+            exact ⟨h1, h2⟩
+          have hpo : pendOf p = some (p.tag, sname i) := by simp [pendOf, hpk]
+          have hq := eokq_body hk hg hu
+          -- the common end
+          have key : ∀ (ok : Bool) (st3 : State) (c : Nat) (log : List LogEnt),
+              st3 = { d.st with tbl := d.st.tbl.map (lift i (tryF (endPost d.st.now d.st.cfg.timeout false) ∘ (hdK .call (ok && !e.closing) ∘ tryF (bodyF ok .call)))) } →
+              Inv st3 →
+              modelOp d (.body n true) = some { st := st3, status := .ok, hdr := none, hang := false, done := [(p.tag, c)], log := log, pend := d.pend.filter (fun q => q.tag != p.tag), nslow := d.nslow, nasync := d.nasync, released := d.released } →
+              (∀ l ∈ log, l.sess = sname i) →
+              (monStep cfg m (.body n true) o).viol = none ∧ Sim cfg d' (monStep cfg m (.body n true) o).mon := by
+            intro ok st3 c log hst3 hinv3 hmo hlog
+            subst hst3
+            have hGk : KeepsId (tryF (endPost d.st.now d.st.cfg.timeout false) ∘ (hdK .call (ok && !e.closing) ∘ tryF (bodyF ok .call))) :=
+              keepsId_comp (keepsId_comp (keepsId_bodyF _ _) (keepsId_hdK _ _)) (keepsId_endPost _ _ _)
+            have hsettle := settle_lift hs.inv hst (i := i) hGk (fun e he _ => hs.settleE_id _ _ rfl e he)
+            have hG : KeepsId (settleE d.st.now d.st.closeFails ∘ (tryF (endPost d.st.now d.st.cfg.timeout false) ∘ (hdK .call (ok && !e.closing) ∘ tryF (bodyF ok .call)))) :=
+              keepsId_comp hGk (keepsId_settleE _ _)
+            have hGe : (settleE d.st.now d.st.closeFails ∘ (tryF (endPost d.st.now d.st.cfg.timeout false) ∘ (hdK .call (ok && !e.closing) ∘ tryF (bodyF ok .call)))) e =
+                settleE d.st.now d.st.closeFails (bodyE d.st.now cfg.timeout e) := by
+              show settleE _ _ (tryF _ (hdK _ _ (tryF _ e))) = _
+              rw [body_eq ok hk.creating hpne hu hk.pending hrc, hs.cfg_eq]
+            have hinv2 : Inv { d.st with tbl := d.st.tbl.map (lift i (settleE d.st.now d.st.closeFails ∘ (tryF (endPost d.st.now d.st.cfg.timeout false) ∘ (hdK .call (ok && !e.closing) ∘ tryF (bodyF ok .call))))) } := by
+              rw [← hsettle]; exact settle_inv hinv3
+            apply sim_one_op (st2 := { d.st with tbl := d.st.tbl.map (lift i (settleE d.st.now d.st.closeFails ∘ (tryF (endPost d.st.now d.st.cfg.timeout false) ∘ (hdK .call (ok && !e.closing) ∘ tryF (bodyF ok .call))))) })
+              hs hmo (Or.inr hsettle) rfl hG rfl rfl rfl rfl hinv2 (pendOkW_filter hpw _)
+              (tblX := monUpd m.tbl (sname i) (mPostDone m.now))
+            · intro j _; exact hcntP j
+            · intro q hq j _ _; exact hs.pok.keep (filter_tag_sub _ _ q hq).1
+            · rw [hba]
+              simp only [bookSlots]
+              show bookDone1 m.now (m.tbl, m.pend) (p.tag, c) = _
+              unfold bookDone1
+              simp only []
+              rw [hs.pend, find_pendOf hs.pok.tags hp hpo]
+              simp only [hptag]
+              rw [← hptag, filterMap_pendOf_filter d.pend (fun t => t != p.tag)]
+              rfl
+            · rw [hba]
+              simp only [bookSlots]
+              rw [hs.run, runOf_filter_tag_other hs.pok.tags hp (by simp [runOf, hpk])]
+            · intro j hj; exact monFind_monUpd_ne (keepsName_mPostDone _) _ (sname_ne hj)
+            · rw [monUpd_names (keepsName_mPostDone _)]; exact hs.mnodup
+            · intro x hx
+              obtain ⟨b, hb', hxb⟩ := monUpd_mem (keepsName_mPostDone _) hx
+              obtain ⟨j, hj, hn⟩ := hs.minted b hb'
+              exact ⟨j, hj, by rw [hxb]; exact hn⟩
+            · intro e' he' hid'
+              rw [htouniq e' he' hid', hGe, (hcntP i).1, (hcntP i).2]
+              refine ⟨eok_settle _ hq, ?_⟩
+              have hGid : (settleE d.st.now d.st.closeFails (bodyE d.st.now cfg.timeout e)).id = i := by
+                rw [keepsId_settleE, (bodyE_fields _ _ _).1]; exact hid
+              unfold RelPreAt
+              rw [hGid, monFind_monUpd_self (keepsName_mPostDone _), (hcntP i).1, (hcntP i).2, hs.now]
+              unfold RelAt at hrel
+              rw [hid] at hrel
+              cases hf : monFind m.tbl (sname i) with
+              | none =>
+                rw [hf] at hrel
+                simp only [Option.map_none]
+                have : (bodyE d.st.now cfg.timeout e).removed = true := by rw [(bodyE_fields _ _ _).2.2.1]; exact hrel
+                rw [settleE_removed_id this]; exact this
+              | some a =>
+                rw [hf] at hrel
+                simp only [Option.map_some]
+                apply relpre_settle _ _ hq.notDue
+                exact rel_body hrel.toERelPre hk.posts hu (fun ht => hg.refs_posts ht) (fun h => hk.tmr h)
+            · rw [hreq]; rfl
+            · show chkBodyLog m.pend n log = none
+              unfold chkBodyLog
+              rw [hs.pend, ← hptag, find_pendOf hs.pok.tags hp hpo]
+              simp only []
+              apply firstSome_none
+              intro l hl
+              simp [hlog l hl]
+            · simp [chkNoId, hreq]
+            · rfl
+            · intro h hh; cases hh
+            · rfl
+            · rfl
+            · simp [countersAfter, hs.nslow, hs.nasync]
+            · exact hop
+          have hn1 : NodupIds (d.st.tbl.map (lift i (tryF (bodyF (d.st.accepts .call) .call)))) :=
+            nodupIds_map (keepsId_lift (keepsId_bodyF _ _)) hnid
+          cases hacc : d.st.accepts .call with
+          | false =>
+            rw [hacc] at hstep hn1
+            have hresp : postResp d.st .call none e.closing = .storeRefused 500 := by
+              simp [postResp, hacc, stStoreOpenFailed, Generated.Sessions.storeOpenFailed]
+            rw [hresp] at hstep
+            apply key false (doL { d.st with tbl := d.st.tbl.map (lift i (tryF (bodyF false .call))) } (.postEnd (some i) false)) 500 []
+            · rw [doL_postEnd (s := { d.st with tbl := d.st.tbl.map (lift i (tryF (bodyF false .call))) }) hst hn1]
+              show ({ d.st with tbl := (d.st.tbl.map _).map _ } : State) = _
+              rw [map_lift_comp (keepsId_bodyF _ _)]
+              simp only [Bool.false_and, hdK_false]
+              rfl
+            · exact doL_inv (step_inv hs.inv hstep) _
+            · simp only [modelOp, hst, Bool.false_eq_true, if_false, hfind, Bool.not_true, hpk, hstep]
+            · intro l hl; cases hl
+          | true =>
+            rw [hacc] at hstep hn1
+            have hresp : postResp d.st .call none e.closing = .forward none (!e.closing) := by
+              simp [postResp, hacc]
+            rw [hresp] at hstep
+            have hrun := runHandler_eq (s1 := { d.st with tbl := d.st.tbl.map (lift i (tryF (bodyF true .call))) }) hst hn1 i .call (!e.closing)
+            have hn2 : NodupIds ((d.st.tbl.map (lift i (tryF (bodyF true .call)))).map (lift i (hdK .call (!e.closing)))) :=
+              nodupIds_map (keepsId_lift (keepsId_hdK _ _)) hn1
+            apply key true (doL (runHandler { d.st with tbl := d.st.tbl.map (lift i (tryF (bodyF true .call))) } i .call (!e.closing)) (.postEnd (some i) false))
+              200 (if (!e.closing) = true then [⟨sname i, .tok usr, .ping⟩] else [])
+            · rw [hrun, doL_postEnd (s := { d.st with tbl := (d.st.tbl.map (lift i (tryF (bodyF true .call)))).map (lift i (hdK .call (!e.closing))) }) hst hn2]
+              show ({ d.st with tbl := ((d.st.tbl.map _).map _).map _ } : State) = _
+              rw [map_lift_comp (keepsId_bodyF _ _), map_lift_comp]
+              · simp only [Bool.true_and]
+              · exact keepsId_comp (keepsId_bodyF _ _) (keepsId_hdK _ _)
+            · exact doL_inv (runHandler_inv (step_inv hs.inv hstep) _ _ _) _
+            · simp only [modelOp, hst, Bool.false_eq_true, if_false, hfind, Bool.not_true, hpk, hstep]
+            · intro l hl
+              split at hl
+              · simp at hl; subst hl; rfl
+              · cases hl
+
 end Sessions
